@@ -64,6 +64,15 @@ class Block:
         return f"pairs={sorted(self.pairs)} hs={self.hs} rns={self.rns}"
 
 
+def _row_canon(t: T) -> T:
+    """the site a block scales, written one way: table[x, k] (x the scanned scalar, k a literal column) is table[x][k]"""
+    t = strip_wrappers(t)
+    if t.op == "getitem" and t.args[1].op == "tuple" and len(t.args[1].args) == 2 and \
+            t.args[1].args[1].op == "const" and isinstance(t.args[1].args[1].args[0], int) and t.args[1].args[0].op != "slice":
+        return getitem(getitem(t.args[0], t.args[1].args[0]), t.args[1].args[1])
+    return t
+
+
 def _hs_name(t: T) -> str:
     """prop_data['hs_constant_nn'][k] / [k, c] -> 'hs_constant_nn'"""
     for x in subterms(t):
@@ -145,7 +154,7 @@ def fast_blocks(ev: Evaluator, body_carry: T, C: T) -> List[Block]:
             idx = strip_wrappers(pos0[1])
             pairs = ts._index_pairs(idx)
             for col, (spin, row) in enumerate(pairs):
-                b.pairs.append((spin.args[0], show(row, maxdepth=4), col))
+                b.pairs.append((spin.args[0], show(_row_canon(row), maxdepth=4), col))
             b.hs = _hs_name(pos0[2])
             mp = _mask_parts(mask)
             if mp is None:
@@ -234,7 +243,7 @@ def slow_blocks(ev: Evaluator, body_carry: T, C: T) -> List[Block]:
                         col = ix_[1].args[0] if ix_[1].op == "const" else None
                     if fld != K:
                         b.problems.append(f"candidate walkers of field {K} are scaled with constants of field {fld}")
-                    layers.append((c, show(row, maxdepth=4), col))
+                    layers.append((c, show(_row_canon(row), maxdepth=4), col))
                     comp = strip_wrappers(tgt.args[0].args[0])
                 if comps_prev[c] is None:
                     comps_prev[c] = comp
